@@ -429,9 +429,20 @@ class World:
             sim = update_requests_from_iterator(iter(rows), sim, env, self.rate_structure)
         sim, _ = CancelRequests().update(sim, env)
         instructions = tuple(mk_instruction(e) for e in events if e[0] == "I")
-        sim, carried = StepSimulation.from_tuple(self.generators(instructions)).update(sim, env)
+        ctrl = StepSimulation.from_tuple(self.generators(instructions))
+        if now != self._start_time():
+            # not the first step of a run: the controller in the form StepSimulation.update hands it back at the end of every
+            # step (a runner carries that object forward), i.e. after update_instruction_generators over the ordered generators
+            ctrl = ctrl.update_instruction_generators(ctrl.ordered_instruction_generators)
+        sim, carried = ctrl.update(sim, env)
         self._carried_controller = carried  # the controller a runner would carry into the next step (C16)
         return sim
+
+    def _start_time(self) -> int:
+        t = getattr(self, "_t_start", None)
+        if t is None:
+            t = self._t_start = min(int(s.sim_time) for s in self.starts.values())
+        return t
 
     # -- replay -----------------------------------------------------------------------------------
     def run(self, history: Sequence):
